@@ -35,8 +35,8 @@ def probe(d):
             rc, out = sh("%s -prop %s -tier quick -repo %s -verif %s" % (BIN, p, wt, vdir))
             if rc != 0:
                 ls = [l for l in out.splitlines() if ("[R" in l or l.startswith("CHECK-BROKEN")) and not l.startswith("KNOWN")]
-                for l in ls[:4]:
-                    out_lines.append("%s exit=%d %s" % (p, rc, re.sub(r"^\S+: ", "", l)[:260]))
+                for l in ls[:2]:
+                    out_lines.append("%s exit=%d %s" % (p, rc, re.sub(r"^\S+: ", "", l)[:200]))
         return sid, out_lines
     finally:
         sh("git -C /repo worktree remove --force %s" % wt)
